@@ -649,6 +649,18 @@ int main(int argc, char** argv) {
                 if (cc.rec.boundary) sink.count("ctf.boundary_r0_le_rw");
                 if (p.skin_factor < 0) sink.count("ctf.negative_skin");
                 if (!allFinite) sink.count("ctf.nonfinite_or_zero");
+                // CSKIN on a copy of the real connection (Connection::setSkinFactor)
+                if (allFinite && rng.coin(1, 3)) {
+                    Connection c2 = *c;
+                    const double s2 = p.skin_factor + uni(rng, -0.5, 6.0);
+                    c2.setSkinFactor(s2);
+                    const auto& q2 = c2.ctfProperties();
+                    std::string l2 = "peaceman.cskin";
+                    for (double x : { p.CF, p.Kh, p.Ke, p.rw, p.r0, p.re, p.connection_length, p.skin_factor, p.peaceman_denom }) l2 += " " + vh::hexF64(x);
+                    l2 += " " + vh::hexF64(s2) + " " + vh::hexF64(q2.CF) + " " + vh::hexF64(q2.skin_factor) + " " + vh::hexF64(q2.peaceman_denom);
+                    sink.emit(l2, "ok");
+                    sink.count("cskin");
+                }
                 // unit conversions of the explicit items
                 // (DeckItem::get<double> returns the SI value once getSIDouble has run on the item, so the
                 // deck value is taken from the text the generator wrote)
@@ -746,6 +758,18 @@ int main(int argc, char** argv) {
                         log.fail("identity.clamped", where);
                     ++stats["identity.boundary_r0_le_rw"];
                 }
+                // CSKIN (Connection::setSkinFactor) keeps the relation
+                if (r0 > rw && cc.rec.consistent && rng.coin(1, 3)) {
+                    Connection c2 = *c;
+                    const long double pd = logl(r0 / rw) + S;
+                    const double s2 = (double) S + (pd > 0 ? uni(rng, -0.5 * (double) std::min(pd, 4.0L), 6.0) : uni(rng, 0.0, 6.0));
+                    c2.setSkinFactor(s2);
+                    const long double lhs = (long double) c2.CF() * (logl((long double) c2.r0() / c2.rw()) + c2.skinFactor()), rhs = TWO_PI * c2.Kh();
+                    const long double scale = fabsl((long double) c2.CF()) * (fabsl(logl(r0 / rw)) + fabsl((long double) s2)) + fabsl(rhs);
+                    if (fabsl(lhs - rhs) > 1e-12L * scale || c2.skinFactor() != s2)
+                        log.fail("cskin.identity", "new skin " + num(s2) + " rel=" + num((double) ((lhs - rhs) / rhs)) + " rec=" + where);
+                    log.ok(); ++stats["cskin.identity.checked"];
+                }
                 // defaults
                 const Textbook tb = textbook(cd, cc.rec.dir);
                 if (!cc.rec.khPos && (!cc.rec.cfPos || cc.rec.khZero)) {
@@ -809,6 +833,18 @@ int main(int argc, char** argv) {
             for (size_t t = 0; t < d.steps.size(); ++t) {
                 const auto cur = snapshot(l->sched->getWell("W1", t).getConnections());
                 const std::string where = "deck=" + std::to_string(n) + " step=" + std::to_string(t) + " ord=" + d.ord;
+                // the relation along the history: CF (ln(r0/rw) + S) = wpimult * 2 pi Kh for every connection at
+                // every report step (tolerance relative to the magnitude of the terms: records covering several
+                // layers are conditioned on their first cell only)
+                for (const auto& c : cur) {
+                    if (!(c.r0 > c.rw) || !(c.rw > 0) || !std::isfinite(c.CF) || !std::isfinite(c.r0)) { ++stats["history.identity.skipped_r0_le_rw"]; continue; }
+                    const long double lg = logl((long double) c.r0 / c.rw);
+                    const long double lhs = (long double) c.CF * (lg + c.skin), rhs = (long double) c.wpimult * TWO_PI * c.Kh;
+                    const long double scale = fabsl((long double) c.CF) * (fabsl(lg) + fabsl((long double) c.skin)) + fabsl(rhs);
+                    if (fabsl(lhs - rhs) > 1e-12L * scale)
+                        log.fail("history.identity", where + " cell=" + snapKey(c) + " lhs=" + num((double) lhs) + " rhs=" + num((double) rhs) + " wpimult=" + num(c.wpimult));
+                    log.ok(); ++stats["history.identity.checked"];
+                }
                 // which old connections may change in this step, and how
                 std::map<std::string, const Snap*> curBy;
                 for (const auto& c : cur) curBy[snapKey(c)] = &c;
